@@ -125,6 +125,24 @@ AllSimple(pipe) == \A k \in DOMAIN pipe : pipe[k].f \in SimpleFilters
 PipeEncodes(pipe, x, e) == LET r == RefPipeDecode(pipe, e) IN r.ok /\ r.out = x
 
 (* ------------------------------------------------------------------------------------ *)
+(* Edits of a decoded stream's content before it is re-encoded (decode - modify - encode). *)
+(* How the edit is performed on the Go side is part of its name: "trunc0slice" re-slices   *)
+(* the content to length 0 (a non-nil empty slice), "trunc0new" assigns a new empty slice, *)
+(* "nilthen" first drops the content (nil) and then assigns the new one, "grow" crosses    *)
+(* the 128-byte run / 4-byte group boundaries.  ApplyEdit is the content expected after    *)
+(* encode, write and re-read.                                                              *)
+Edits == <<"append", "prepend", "replace", "trunc1", "trunc0slice", "trunc0new", "nilthen", "grow">>
+ApplyEdit(e, x) ==
+  CASE e = "append"      -> x \o <<0, 128, 255, Len(x) % 256>>
+    [] e = "prepend"     -> <<37, 0>> \o x
+    [] e = "replace"     -> [i \in 1..Len(x) |-> IF i % 3 = 2 THEN (x[i] + 90) % 256 ELSE x[i]]
+    [] e = "trunc1"      -> SubSeq(x, 1, Min2(1, Len(x)))
+    [] e = "trunc0slice" -> <<>>
+    [] e = "trunc0new"   -> <<>>
+    [] e = "nilthen"     -> x \o <<1>>
+    [] e = "grow"        -> x \o [i \in 1..131 |-> (3 * i) % 256]
+
+(* ------------------------------------------------------------------------------------ *)
 (* Decode parameters (ISO 32000-1 Table 8).  -1 stands for "entry absent".               *)
 DefPred(p) == IF p = -1 THEN 1 ELSE p
 DefColors(c) == IF c = -1 THEN 1 ELSE c
